@@ -34,7 +34,7 @@ import os
 import sys
 import types
 
-from . import core, models
+from . import core, models, rope
 from .core import PathEnd, Undecided
 
 REPO = os.environ.get("PYVC_REPO", "/repo")
@@ -46,6 +46,7 @@ LIB_MODELS = {
     "re": models.make_re_module,
     "hashlib": models.make_hashlib_module,
     "struct": models.make_struct_module,
+    "hmac": models.make_hmac_module,
 }
 
 
@@ -479,8 +480,12 @@ class LoopDriver:
             c.add(i <= core.toint(self.n))
             self.i = core.SInt(i)
         if self.spec.ghost_init:
-            for k in self.spec.ghost_init:
-                self.g[k] = core.SInt(z3.Int(c.fresh(k)))
+            for k, v0 in self.spec.ghost_init.items():
+                if isinstance(v0, (bytes, rope.Rope)):
+                    # a bytes-valued ghost: arbitrary content, the length of its initial value
+                    self.g[k] = rope.Rope([rope.O(c.fresh(k), rope.Rope.of(v0).length_term())])
+                else:
+                    self.g[k] = core.SInt(z3.Int(c.fresh(k)))
         ns = self._ns(loc, self.i)
         out = []
         for x in names:
